@@ -1,6 +1,7 @@
 SPECIFICATION Spec
 CONSTANTS
   MaxSegs = 4
+  FullLeadSegs = 4
   Pinned = FALSE
   Endpoints <- RtEndpoints
   EpGET <- RtGET
